@@ -8,23 +8,22 @@ a prefix of the log (`crashState env pre log k`, `k` arbitrary — beyond the le
 namespace Pkgcore.C19
 open Pkgcore.C18 Pkgcore.C18.Spec Pkgcore.C19.Spec
 
-/-- **Every crash point of a merge is crash-safe** — for every pre-existing file system, contents set, process
-identity, offset flag and **every prefix `k`** of the system calls of a merge: each path that existed before holds
-its complete previous or its complete new content and metadata (directories: same inode, permissions kept,
-ownership old or recorded), nothing outside the contents set is created or modified apart from `'#new'`
-siblings.
+/-- **Every crash point of every merge is crash-safe** — for every pre-existing file system, contents set, process
+identity, offset flag, **whatever the merge would return** (normally, or `CannotOverwrite`/`FailedCopy`/`OSError`
+half-way), and **every prefix `k`** of its system calls: each path that existed before holds its complete previous
+or its complete new content and metadata (directories: same inode, permissions kept, ownership old or recorded),
+nothing outside the contents set is created or modified apart from `'#new'` siblings.
 
 `_partial`: under `NoDirOverSymlink` (no directory entry lands on a symlink); the full statement (the same without
 that hypothesis) is false of the model and of the code: `merge_crash_safe_counterexample` (open finding
-`C19-dir-over-symlink-window`).  What still holds there is `merge_crash_states`.  The other hypotheses are those
-of `C18.merge_places_contents_partial`, and the merge is one that returns normally when it is not interrupted. -/
-theorem merge_crash_safe_partial (env : Env) (off : Bool) (pre : Fs) (es : List Entry) (s : St)
+`C19-dir-over-symlink-window`).  What still holds there is `merge_crash_states`.  The other hypotheses are the
+well-formedness conditions and finding guards of `C18.merge_places_contents_partial`, plus `NonDirsBelowRoot`. -/
+theorem merge_crash_safe_partial (env : Env) (off : Bool) (pre : Fs) (es : List Entry)
     (hpre : pre.WF) (hdist : DistinctLocs es) (hclash : NoTmpClash es) (htree : TreeShaped es)
     (hsym : NoSymOverDir pre es) (hhl : HardlinkConsistent es) (hsolo : SymAtDirSolo pre es)
-    (hroot : RootGuard off pre es) (hwin : NoDirOverSymlink pre es)
-    (h : mergeContents env off es pre = (s, .ok ())) :
-    ∀ k : Nat, CrashSafe pre es (crashState env pre s.log k) := by
-  obtain ⟨c, _, _, ops, h1, _, h3⟩ := merge_main hpre ⟨hclash, htree, hsym, hhl, hsolo⟩ hdist hroot h
+    (hroot : RootGuard off pre es) (hnr : NonDirsBelowRoot es) (hwin : NoDirOverSymlink pre es) :
+    ∀ k : Nat, CrashSafe pre es (crashState env pre (mergeContents env off es pre).1.log k) := by
+  obtain ⟨ops, h1, _, h3⟩ := merge_traj (env := env) hpre ⟨hclash, htree, hsym, hhl, hsolo⟩ hdist hroot hnr
   simp only [List.nil_append] at h1
   intro k
   unfold crashState
@@ -33,24 +32,35 @@ theorem merge_crash_safe_partial (env : Env) (off : Bool) (pre : Fs) (es : List 
 
 /-- without the guard: the location of a directory entry that lands on a symlink may, in addition, be absent or
 hold the directory that is being set up; everything else as in `merge_crash_safe_partial` -/
-theorem merge_crash_states (env : Env) (off : Bool) (pre : Fs) (es : List Entry) (s : St)
+theorem merge_crash_states (env : Env) (off : Bool) (pre : Fs) (es : List Entry)
     (hpre : pre.WF) (hdist : DistinctLocs es) (hclash : NoTmpClash es) (htree : TreeShaped es)
     (hsym : NoSymOverDir pre es) (hhl : HardlinkConsistent es) (hsolo : SymAtDirSolo pre es)
-    (hroot : RootGuard off pre es)
-    (h : mergeContents env off es pre = (s, .ok ())) :
-    ∀ k : Nat, (∀ q, OldPathSafeW pre es (crashState env pre s.log k) q) ∧
-               (∀ q, NewPathInside pre es (crashState env pre s.log k) q) := by
-  obtain ⟨c, _, _, ops, h1, _, h3⟩ := merge_main hpre ⟨hclash, htree, hsym, hhl, hsolo⟩ hdist hroot h
+    (hroot : RootGuard off pre es) (hnr : NonDirsBelowRoot es) :
+    ∀ k : Nat, (∀ q, OldPathSafeW pre es (crashState env pre (mergeContents env off es pre).1.log k) q) ∧
+               (∀ q, NewPathInside pre es (crashState env pre (mergeContents env off es pre).1.log k) q) := by
+  obtain ⟨ops, h1, _, h3⟩ := merge_traj (env := env) hpre ⟨hclash, htree, hsym, hhl, hsolo⟩ hdist hroot hnr
   simp only [List.nil_append] at h1
   intro k
   unfold crashState
   rw [h1]
   exact ⟨reach_old_W (h3 k), reach_new (h3 k)⟩
 
+/-- the logged calls are the trajectory: the state the model ends in is the replay of its log, for every outcome -/
+theorem merge_log_is_trajectory (env : Env) (off : Bool) (pre : Fs) (es : List Entry)
+    (hpre : pre.WF) (hdist : DistinctLocs es) (hclash : NoTmpClash es) (htree : TreeShaped es)
+    (hsym : NoSymOverDir pre es) (hhl : HardlinkConsistent es) (hsolo : SymAtDirSolo pre es)
+    (hroot : RootGuard off pre es) (hnr : NonDirsBelowRoot es) :
+    (mergeContents env off es pre).1.fs =
+      crashState env pre (mergeContents env off es pre).1.log (mergeContents env off es pre).1.log.length := by
+  obtain ⟨ops, h1, h2, _⟩ := merge_traj (env := env) hpre ⟨hclash, htree, hsym, hhl, hsolo⟩ hdist hroot hnr
+  simp only [List.nil_append] at h1
+  unfold crashState
+  rw [h2, h1, ← List.length_map (f := Prod.fst), List.take_length]
+
 /-! non-vacuity: the example merge of C18 (a file replaced through its `'#new'` sibling, a hard link, a kept
 directory with a change of ownership, missing parents) satisfies all hypotheses, has 14 calls, and e.g. its crash
 point 4 (temporary written, ownership not yet set) is crash-safe by evaluation as well -/
-example : (mergeContents exEnv true exEs exPre).2.isOk = true ∧ NoDirOverSymlink exPre exEs ∧
+example : (mergeContents exEnv true exEs exPre).2.isOk = true ∧ NoDirOverSymlink exPre exEs ∧ NonDirsBelowRoot exEs ∧
     crashFailures exPre exEs (crashState exEnv exPre (mergeContents exEnv true exEs exPre).1.log 4) = [] ∧
     (crashState exEnv exPre (mergeContents exEnv true exEs exPre).1.log 4).view ["f#new", "d"] ≠ none := by decide
 
@@ -59,12 +69,12 @@ the path that existed before holds neither its old nor its new content: it is ab
 theorem merge_crash_safe_counterexample :
     ∃ (env : Env) (pre : Fs) (es : List Entry) (k : Nat),
       DistinctLocs es ∧ NoTmpClash es ∧ TreeShaped es ∧ NoSymOverDir pre es ∧ HardlinkConsistent es ∧
-      SymAtDirSolo pre es ∧ RootGuard true pre es ∧ (mergeContents env true es pre).2.isOk = true ∧
+      SymAtDirSolo pre es ∧ RootGuard true pre es ∧ NonDirsBelowRoot es ∧ (mergeContents env true es pre).2.isOk = true ∧
       ¬ CrashSafe pre es (crashState env pre (mergeContents env true es pre).1.log k) := by
   refine ⟨⟨0o022, 0, 0⟩,
     ⟨[([], 1, ⟨.dir, 0o755, 0, 0, 0⟩), (["d"], 2, ⟨.sym "nowhere", 0o777, 0, 0, 5⟩)], 3⟩,
     [⟨["d"], .dir, 0o755, 0, 0, 7⟩], 2,
-    by decide, by decide, by decide, by decide, by decide, by decide, by decide, by decide, ?_⟩
+    by decide, by decide, by decide, by decide, by decide, by decide, by decide, by decide, by decide, ?_⟩
   rw [crashSafe_iff_failures]
   decide
 
